@@ -166,6 +166,11 @@ def check_vector(v):
         res["pileup.get_data"] = [[c, int(s), int(e), int(x)] for c, s, e, x in zip(d.chromosome.tolist(), d.start.tolist(), d.stop.tolist(), d.value.tolist())]
         d = bnp.compute(iv().get_mask().get_data())
         res["mask.get_data"] = [[c, int(s), int(e)] for c, s, e in zip(d.chromosome.tolist(), d.start.tolist(), d.stop.tolist())]
+        # boolean arrays derived from streamed arrays, converted back to records
+        for nm, mk in (("(pileup>0).get_data", lambda: iv().get_pileup() > 0), ("(~mask).get_data", lambda: ~iv().get_mask())):
+            d = bnp.compute(mk().get_data())
+            res[nm] = [[c, int(s), int(e)] + ([bool(x)] if hasattr(d, "value") else []) for c, s, e, *x in
+                       zip(d.chromosome.tolist(), d.start.tolist(), d.stop.tolist(), *([d.value.tolist()] if hasattr(d, "value") else []))]
         # values of the pile-up under in-memory stranded windows ('+', '-' and '.'), and their mean profile
         from bionumpy.datatypes import Bed6
         wn = [nm for nm in KEYNAMES.values() for _ in range(3)]
